@@ -31,7 +31,9 @@ import traceback
 from . import build, prng
 
 VERIF = os.path.dirname(os.path.dirname(os.path.abspath(__file__)))
-EVIDENCE_DIR = os.path.join(VERIF, 'evidence')
+# Evidence is written to /verif/evidence only by runs against /repo itself; trials against another tree (VERIF_REPO,
+# seeded changes) and the determinism self-test (VERIF_EVIDENCE_DIR) write elsewhere so that they never replace it.
+EVIDENCE_DIR = os.environ.get('VERIF_EVIDENCE_DIR') or (os.path.join(VERIF, 'out', 'evidence-other-tree') if os.environ.get('VERIF_REPO') else os.path.join(VERIF, 'evidence'))
 REPLAY_DIR = os.path.join(VERIF, 'out', 'replays')
 FINDINGS_FILE = os.path.join(VERIF, 'known_findings.json')
 
